@@ -86,10 +86,12 @@ fn any_scalar(rng: &mut Rng) -> Value {
         12 => {
             let tzs = chrono_tz::TZ_VARIANTS;
             let tz = tzs[rng.below(tzs.len())];
-            let secs = match rng.below(5) {
+            let secs = match rng.below(6) {
                 0 => -62_167_219_200 - 86400 * 400, // before year 0
                 1 => 253_402_300_800 + 86400 * 400, // after year 9999
                 2 => 0,
+                // the repeated / skipped local hour around a daylight-saving change
+                3 => crate::gen::near_transition(rng, tz).unwrap_or(1_600_000_000),
                 _ => rng.range(-4_000_000_000, 8_000_000_000),
             };
             match tz.timestamp_opt(secs, rng.below(1_000_000_000) as u32).single() {
@@ -229,7 +231,14 @@ impl std::io::Write for HostileWriter {
         }
         if let Some(limit) = self.fail_after {
             if self.out.len() >= limit {
-                return Err(std::io::Error::new(std::io::ErrorKind::BrokenPipe, "peer went away"));
+                // the ways a real sink fails: an error with a message payload, a bare kind, an OS error code,
+                // or simply taking no more bytes (write_all turns that into WriteZero)
+                return match limit % 4 {
+                    0 => Err(std::io::Error::new(std::io::ErrorKind::BrokenPipe, "peer went away")),
+                    1 => Err(std::io::Error::from(std::io::ErrorKind::BrokenPipe)),
+                    2 => Err(std::io::Error::from_raw_os_error(28)),
+                    _ => Ok(0),
+                };
             }
         }
         let mut n = buf.len().min(self.chunk.max(1));
